@@ -66,8 +66,9 @@ def run(tier):
         raise ToolError("generator: %d scripts, %d names" % (len(scripts), len(names)))
     rng = random.Random(seed())
     total = len(scripts)
-    if tier == "quick":       # the enumeration is TLC's; a seeded sample of it is executed on every change
-        scripts = rng.sample(scripts, 60)
+    if tier == "quick":       # the enumeration is TLC's; a seeded sample of it is executed on every change (the node-down scripts always)
+        down = [s for s in scripts if any(st.get("op") == "stop" for st in s["steps"])]
+        scripts = down + rng.sample([s for s in scripts if s not in down], 50)
     ins = [dict(s, id=i) for i, s in enumerate(scripts)]
     shape = {"nodes": [{"shards": 0}, {"shards": 0}], "pool": {"kind": "per_host", "n": 1}, "use_delay_ms": 0}
     for k in range(0, len(names), 17):
